@@ -19,6 +19,7 @@ import (
 	"net/http/httptest"
 	"os"
 	"path/filepath"
+	"reflect"
 	"runtime"
 	"sort"
 	"strings"
@@ -81,6 +82,17 @@ type lenSizer int
 
 func (l lenSizer) Size(s string) int { return len(s) + int(l) }
 
+// a request-scoped value that a middleware maps only when the request carries X-Tenant, and a custom
+// inject.FastInvoker that needs it: without the header the injection fails (500 through Recovery)
+type tenantInfo struct{ name, id string }
+
+type tenantInvoker func(c flamego.Context, t *tenantInfo)
+
+func (invoke tenantInvoker) Invoke(args []interface{}) ([]reflect.Value, error) {
+	invoke(args[0].(flamego.Context), args[1].(*tenantInfo))
+	return nil, nil
+}
+
 // request-scoped service mapped by concrete type per request and asked for by interface
 type whoami interface{ Who() string }
 type reqWho struct{ id string }
@@ -121,6 +133,13 @@ func buildConcApp(dir string) *flamego.Flame {
 		c.ResponseWriter().Before(func(w flamego.ResponseWriter) { w.Header().Set("X-Echo-Id", id) })
 		c.Map(&reqScoped{ID: id, Path: c.Request().URL.Path})
 		c.Map(&reqWho{id: id}) // concrete type; handlers ask for the interface `whoami`
+		if t := c.Request().Header.Get("X-Tenant"); t != "" {
+			c.Map(&tenantInfo{name: t, id: id})
+		}
+		// middleware that STORES into the request's bind parameters (nil for NotFound contexts)
+		if ps := c.Params(); ps != nil {
+			ps["mw"] = id
+		}
 	})
 	f.AutoHead(true)
 	f.Get("/", func(c flamego.Context) string { return echo("root", c) })                                  // static shortcut
@@ -162,6 +181,38 @@ func buildConcApp(dir string) *flamego.Flame {
 	f.Get("/query", func(c flamego.Context) string {
 		return fmt.Sprintf("query|%s|%d|%v", c.Query("a", "dflt"), c.QueryInt("n"), c.QueryStrings("m"))
 	})
+	// handlers that store a per-request value into c.Params() and read it back, on fully static and on dynamic routes
+	tenant := func(tag string) func(c flamego.Context) string {
+		return func(c flamego.Context) string {
+			id := c.Request().Header.Get("X-Req-Id")
+			c.Params()["tenant"] = id
+			runtime.Gosched()
+			c.Params()["seen"] = c.Params()["tenant"] + "/" + c.Params()["mw"]
+			return echo(tag, c) + "|tenant=" + c.Params()["tenant"]
+		}
+	}
+	f.Get("/tenant", tenant("tenant-static"))
+	f.Get("/tenant/fixed/path", tenant("tenant-static-deep"))
+	f.Post("/tenant", tenant("tenant-static-post"))
+	f.Get("/tenant/dyn/{x}", tenant("tenant-dyn"))
+	f.Get("/tenant/all/{rest: **}", tenant("tenant-all"))
+	// fast-invoker handlers (ContextInvoker / LoggerInvoker / a custom FastInvoker) that echo the request's id
+	f.Get("/fi/ctx/{n}", func(c flamego.Context) { // wrapped as ContextInvoker
+		runtime.Gosched()
+		_, _ = c.ResponseWriter().Write([]byte(echo("fi-ctx", c)))
+	})
+	f.Get("/fi/log/{n}", flamego.LoggerInvoker(func(c flamego.Context, l *log.Logger) {
+		l.Print("fi", "n", c.Param("n"))
+		runtime.Gosched()
+		_, _ = c.ResponseWriter().Write([]byte(echo("fi-log", c)))
+	}))
+	f.Get("/fi/custom/{n}", tenantInvoker(func(c flamego.Context, t *tenantInfo) {
+		runtime.Gosched()
+		_, _ = c.ResponseWriter().Write([]byte(echo("fi-custom", c) + "|tenant=" + t.name + "/" + t.id))
+	}))
+	f.Get("/fi/chain/{n}", func(c flamego.Context) { c.Next() }, tenantInvoker(func(c flamego.Context, t *tenantInfo) {
+		_, _ = c.ResponseWriter().Write([]byte(echo("fi-chain", c) + "|tenant=" + t.name + "/" + t.id))
+	}))
 	// services by interface (app level: found in the shared Flame injector; request level: in the request's own)
 	f.Get("/svc/greet/{n}", func(c flamego.Context, g greeter) string {
 		return "greet|" + g.Greet(c.Param("n")) + "|" + echoParams(c)
@@ -195,7 +246,7 @@ func concRequests(r *rand.Rand, n int) []concReq {
 	var out []concReq
 	for i := 0; i < n; i++ {
 		q := concReq{Method: "GET", Header: map[string]string{"X-Req-Id": fmt.Sprintf("r%d", i)}}
-		switch k := r.Intn(32); k {
+		switch k := r.Intn(42); k {
 		case 0:
 			q.Kind, q.Path = "static-root", "/"
 		case 1:
@@ -267,6 +318,26 @@ func concRequests(r *rand.Rand, n int) []concReq {
 			q.Kind, q.Path = "svc-request-scoped-iface", "/svc/who/"+w()
 		case 30:
 			q.Kind, q.Path = "svc-logger", "/svc/log/"+w()
+		case 31:
+			q.Kind, q.Path = "params-store-static", "/tenant"
+			if r.Intn(3) == 0 {
+				q.Method = "POST"
+			}
+		case 32:
+			q.Kind, q.Path = "params-store-static-deep", "/tenant/fixed/path"
+		case 33:
+			q.Kind, q.Path = "params-store-dynamic", "/tenant/dyn/"+w()
+		case 34:
+			q.Kind, q.Path = "params-store-match-all", "/tenant/all/"+w()+"/"+w()
+		case 35:
+			q.Kind, q.Path = "fi-context-invoker", "/fi/ctx/"+w()
+		case 36:
+			q.Kind, q.Path = "fi-logger-invoker", "/fi/log/"+w()
+		case 37, 38:
+			q.Kind, q.Path = "fi-custom", []string{"/fi/custom/", "/fi/chain/"}[r.Intn(2)]+w()
+			q.Header["X-Tenant"] = w()
+		case 39:
+			q.Kind, q.Path = "fi-custom-missing", []string{"/fi/custom/", "/fi/chain/"}[r.Intn(2)]+w() // no X-Tenant: injection fails
 		default:
 			q.Kind, q.Path = "not-found", "/nowhere/"+w()
 			if r.Intn(2) == 0 {
@@ -354,6 +425,15 @@ func concMain(args []string) {
 	// as the sync.Once string caches is filled under contention), then against the Flame that served the serial pass
 	var served int64
 	var failed atomic.Bool
+	var failing, fast []int // failed injections (500) and fast-invoker / params-storing requests that echo their own id
+	for i, q := range reqs {
+		if q.Kind == "fi-custom-missing" {
+			failing = append(failing, i)
+		}
+		if strings.HasPrefix(q.Kind, "fi-") || strings.HasPrefix(q.Kind, "params-store") {
+			fast = append(fast, i)
+		}
+	}
 	var lazy []int // requests whose first service makes the framework fill something lazily (injector search, Once strings)
 	for i, q := range reqs {
 		if strings.HasPrefix(q.Kind, "svc-") || q.Kind == "urlpath" || q.Kind == "scoped" || q.Kind == "render-json" {
@@ -371,8 +451,14 @@ func concMain(args []string) {
 			order := make([]int, 0, len(reqs)*rounds/workers+1)
 			pr := rand.New(rand.NewSource(seed*1000 + salt*100 + int64(wk)))
 			if burst > 0 {
+				if len(failing) > 0 { // an injection failure first, then many fast-invoker calls
+					order = append(order, failing[pr.Intn(len(failing))])
+				}
 				for k := 0; k < 4 && len(lazy) > 0; k++ {
 					order = append(order, lazy[pr.Intn(len(lazy))])
+				}
+				for k := 0; k < 12 && len(fast) > 0; k++ {
+					order = append(order, fast[pr.Intn(len(fast))])
 				}
 				for k := 0; k < burst; k++ {
 					order = append(order, pr.Intn(len(reqs)))
